@@ -27,6 +27,13 @@ CHECKS["C04"] = {
     "design": "DESIGN.md 5 C04",
 }
 
+CHECKS["C03"] = {
+    "text": "Model of the table's membership operations (reserve / re-buy / join / redeem / leave / batch update over the seat-manager model). Proved: every operation of the model that reports an error returns the bookkeeping it was given (all-or-nothing), for every state and argument, with one exclusion that is a recorded finding (F19: a batch update applies its departures before its arrivals are refused; _refuted witness). Preservation of the consistency invariant seat_inv (seat map / player list / seat manager agree, one seat per player within the table, capacity) is not yet proved in Coq (theorem named _partial): it is decided on every run by evaluating the same decidable seat_inv on every observed implementation state and by step-local model/implementation equality on ~5000 operations of random valid+invalid histories on 2..10 seats, before the first hand and between hands.",
+    "note": "Trusted: Coq kernel + vm_compute; hand-written model coq/Model/TableMem.v (tied by differential execution from identical pre-states); random seat draws as observed oracle values; the join group's asynchronous auto-join is settled by the harness before the next operation (an engine/syncsaga re-arming hazard that can dead-lock is described in DESIGN.md). Four genuine defects found by this check were repaired (fix: commits), one is a known finding.",
+    "technique": "Rocq proof of the all-or-nothing clause on the membership model + decidable invariant monitored on implementation states + step-local differential correspondence",
+    "design": "DESIGN.md 5 C03",
+}
+
 NOT_YET = "not built yet in this round (work in progress; the design claims it, see DESIGN.md 5)"
 
 
